@@ -45,6 +45,19 @@ class Source:
         return self.pulled - 1
 
 
+class View:
+    """An endless host collection that can be iterated again (not an
+    iterator): every walk counts on the same counter."""
+
+    def __init__(self):
+        self.pulled = 0
+
+    def __iter__(self):
+        while True:
+            self.pulled += 1
+            yield self.pulled - 1
+
+
 EXPRS = [
     '$', '$.toList()', '$.len()', '$.sum()', '$.select($ + 1)',
     '$.where($ > 2)', '$.where($ < 0)', '$.orderBy($)', '$.reverse()',
@@ -76,6 +89,12 @@ EXPRS = [
     'generateMany(0, [0].cycle(), decycle => true)',
     'generateMany(0, [0].cycle(), decycle => true, depthFirst => true)',
     'generateMany(0, $src.select(0), decycle => true)',
+    # an endless stream that is an ELEMENT of the argument
+    '[1, $].flatten()', '[1, [2, $]].flatten()', '[1, $].flatten().take(3)',
+    '[1].select($src).flatten()', '[[1], $].selectMany($)',
+    '[[1], $].selectMany($).take(3)', '[$].selectMany($).take(2)',
+    '[1, $].select($).toList()', '[$, [1]].sum([])', 'list([1, $])',
+    'list(1, $)', 'list([1, [2, $]])',
 ]
 N = 10
 
@@ -94,9 +113,11 @@ def main():
     engine = yaql.YaqlFactory().create(options={'yaql.limitIterators': N})
     cases, timed_out = 0, []
     for text in EXPRS:
-        for conv in (True,):
+        for kind in (Source, View):
+            if kind is View and ('$src' in text or '$' not in text):
+                continue
             cases += 1
-            src = Source()
+            src = kind()
             ctx = yaql.create_context()
             src2 = Source()
             ctx['src'] = src2
